@@ -267,6 +267,12 @@ func c09(args []string) int {
 				continue
 			}
 			var subs []c09Sub
+			if d.HasFix && !d.FixInFile {
+				// applying it would edit another file (or nothing that exists): the fix does not belong to this diagnostic
+				ev.Violate(evidence.Violation{Key: d.Checker + "|fix-range-outside-the-diagnosed-file", What: d.Checker + ": the fix attached to a diagnostic edits a range that is invalid, inverted or lies in another file than the diagnosed code",
+					Observed: d.String() + fmt.Sprintf("\ndiagnostic in %s at offset %d, fix range [%d,%d)", d.File, d.Offset, d.From, d.To), Replay: progReplay(p, d.Checker)})
+				continue
+			}
 			if d.HasFix && d.FixInFile {
 				if d.Offset < d.From || d.Offset >= d.To && d.To > d.From {
 					ev.Violate(evidence.Violation{Key: d.Checker + "|fix-range-does-not-cover-the-diagnosed-code", What: d.Checker + ": the fix of a diagnostic edits a range that does not contain the diagnosed position (it changes unrelated code and leaves the diagnosed code as it is)",
